@@ -278,7 +278,7 @@ def replay(run, model, drv, path):
     """re-run the case(s) of a replay file: lines 'case: <line>' / 'replay: <line>'"""
     lines = []
     for ln in open(path):
-        m = re.match(r"(?:case|replay): ((?:oscx|oscun|oscderive|oscseq) .*)$", ln.strip())
+        m = re.match(r"(?:case|replay): ((?:oscx|oscun|oscderive|oscseq|oscmulti) .*)$", ln.strip())
         if m:
             lines.append(m.group(1))
     om, oc, _ = tie.run_both(model, drv, lines)
@@ -443,20 +443,24 @@ def main(run):
     # without Partial IV: the request binding kept by both endpoints is refreshed in between
     sq = [ln for ln in corpus if ln.startswith("oscseq ")]
     sq += [G.gen_sequence(r) for _ in range(60 if quick else 1500)]
+    # ... and two security contexts at one server session, requests interleaved, responses delayed
+    sq += [ln for ln in corpus if ln.startswith("oscmulti ")]
+    sq += [G.gen_multi(r) for _ in range(40 if quick else 1000)]
     qm, qc, _ = tie.run_both(model, drv, sq, timeout=3000)
     n_sq_bad = 0
     for k, ln in enumerate(sq):
         run.count(ln, "REJECT" not in qm[k] and "NONE" not in qm[k])
-        run.hist("sequence_steps", len(ln.split()) - 10)
+        nfix = 17 if ln.startswith("oscmulti") else 10
+        run.hist("sequence_steps", "%s:%d" % (ln.split()[0], len(ln.split()) - nfix))
         bad = None
         if qc[k].startswith("CRASH"):
             bad = "implementation crashes in a request/response sequence on one token"
         elif re.search(r"=(NONE|REJECT|PARSE-REJECT|PLAIN)", qc[k]):
             step = len(re.findall(r" d[qr]=", qc[k].split("REJECT")[0].split("NONE")[0]))
-            bad = "sequence on one token: a genuine message is not protected / not recovered by the peer (step %d of %s)" % (
-                max(step, 1), " ".join(ln.split()[10:]))
+            bad = "request/response sequence (%s): a genuine message is not protected / not recovered by the peer (step %%d of %%s)" % ("two contexts on one server session" if nfix == 17 else "one token") % (
+                max(step, 1), " ".join(ln.split()[nfix:]))
         elif qm[k] != qc[k]:
-            bad = "sequence on one token: protected bytes / results differ from the RFC 8613 reference"
+            bad = "request/response sequence: protected bytes / results differ from the RFC 8613 reference"
         if bad:
             n_sq_bad += 1
             if n_sq_bad <= 3:
